@@ -6,6 +6,7 @@ ID = "C10"
 THEOREMS = "Properties/C10.v"
 HARNESS = ["c10"]
 LEVEL = "proof"
+READY = True
 TRUSTED_BASE = [
     "Coq 8.16.1 kernel (coqc, full .vo build); vm_compute used in one Example and in the correspondence evaluation",
     "no axioms: Print Assumptions reports 'Closed under the global context' for every theorem of Properties/C10.v",
